@@ -55,10 +55,19 @@ static int cv_wait(struct cv *c, struct ulock *l)
   if (g_waits < 2) g_waits++; /* saturating ghost: 0, 1, many */
   ulock_unlock(l);
   ulock_lock(l);
-  VX_ASSUME(g_inflight >= 1); /* we run again only because a notifier dequeued us: our wake-up was in flight */
-  g_inflight--;
-  g_last_wake = thread_restart_state_signaled;
-  return thread_restart_state_signaled;
+  /* as proved for detail::condition_variable::wait (C07 unit cv.wait): `signaled` iff a notifier dequeued us; if the
+   * suspension ends without a notifier the entry is still queued, is erased, and the result is `timeout` */
+  if (nondet_bool())
+  {
+    VX_ASSUME(g_inflight >= 1); /* we run again because a notifier dequeued us: our wake-up was in flight */
+    g_inflight--;
+    g_last_wake = thread_restart_state_signaled;
+    return thread_restart_state_signaled;
+  }
+  VX_ASSUME(g_waiters >= 1); /* our own entry is still in the queue; reset_queue_entry erases it */
+  g_waiters--;
+  g_last_wake = thread_restart_state_timeout;
+  return thread_restart_state_timeout;
 }
 /* timed: returns signaled (dequeued by a notifier) or timeout (still enqueued at the deadline; entry erased) */
 static int cv_wait_until(struct cv *c, struct ulock *l, long abs_time)
